@@ -2095,13 +2095,13 @@ class Interp:
                 return v
         return None
 
-    def comp_iter(self, gens, fr, body):
+    def comp_iter(self, gens, fr, body, first=None):
         def rec(i, f2):
             if i == len(gens):
                 body(f2)
                 return
             g = gens[i]
-            for x in self.iterate(self.eval(g.iter, f2)):
+            for x in self.iterate(first[0] if (i == 0 and first is not None) else self.eval(g.iter, f2)):
                 self.assign(g.target, x, f2)
                 ok = True
                 for c in g.ifs:
@@ -2115,12 +2115,13 @@ class Interp:
         f2.func = fr.func
         rec(0, f2)
 
-    def abstract_comp(self, e, fr):
+    def abstract_comp(self, e, fr, src=None):
         """[elt for x in <abstract list> if conds]: an order-preserving map/filter, kept as a term"""
         if len(e.generators) != 1:
             return None
         g = e.generators[0]
-        src = self.eval(g.iter, fr)
+        if src is None:
+            src = self.eval(g.iter, fr)
         if not (isinstance(src, UTerm) and src.sort == "list"):
             return None, src
         f2 = Frame(fr.func, fr)
@@ -2147,14 +2148,14 @@ class Interp:
         return UTerm("cond", [ast.dump(c)], "bool")
 
     def e_ListComp(self, e, fr):
+        first = None
         if len(e.generators) == 1:
-            # peek: is the source an abstract list?
-            probe = self.try_abstract_source(e.generators[0].iter, fr)
-            if probe is not None:
-                r = self.abstract_comp(e, fr)
-                return r[0]
+            # is the source an abstract list (a name bound to one, or an expression yielding one)?
+            first = (self.eval(e.generators[0].iter, fr),)
+            if isinstance(first[0], UTerm) and first[0].sort == "list":
+                return self.abstract_comp(e, fr, first[0])[0]
         out = []
-        self.comp_iter(e.generators, fr, lambda f2: out.append(self.eval(e.elt, f2)))
+        self.comp_iter(e.generators, fr, lambda f2: out.append(self.eval(e.elt, f2)), first)
         return out
 
     e_GeneratorExp = e_ListComp
